@@ -146,10 +146,10 @@ depth as values (`key op { fields }`, incl. `?=` / `!=` on the first field); fra
 are scalars, empty containers `{}`, objects, and arrays of scalars / objects / arrays / empty
 containers, nested to any depth (the structure of save files), fields written with or without
 the optional `=` before `{` (`a={..}` and `a{..}` have the same content), ghost `{}` in key
-position.  Missing fragments: ghost `{}` at the start of a container, headers (`rgb {..}`),
-parameter blocks, object→array mixed containers, `@[..]` variables and unquoted scalars starting
-with `@`, BOM in front of a document (C01_bom covers it separately).  These are decided by the
-correspondence run and the layout/faithfulness oracles.
+position and at the start of a container, headers (`rgb {..}`) in field-value position, a BOM in
+front.  Missing fragments: parameter blocks, object→array mixed containers, `@[..]` variables and
+unquoted scalars starting with `@`.  These are decided by the correspondence run and the
+layout/faithfulness oracles.
 -/
 /-- fragment 1 of C01_faithful: a flat document under ANY valid layout parses to a tape that is,
 up to the scalar positions, exactly the document's keys, operators and scalar bytes (quoted vs
@@ -211,6 +211,41 @@ theorem C01_layout_independent_tree_partial (fs fs' : JFields) (gt gt' : Bytes)
     ∃ T T', parse (jrenderF fs ++ gt) = .ok T false ∧ parse (jrenderF fs' ++ gt') = .ok T' false ∧
       T.map Tok.erase = T'.map Tok.erase :=
   layout_independent_tree fs fs' gt gt' hgt hgt' hv hv' hb hb' hc
+
+/-- C01_faithful, headers (`rgb { … }`, `hsv { … }`, `LIST { … }`): in `key op h { … }` the unquoted
+scalar `h` becomes the `Header` token of the container that follows; the rest of the document
+(fragment 3) is unaffected. -/
+theorem C01_faithful_header_partial (g0 : Bytes) (k : Scal) (g1 : Bytes) (o : Op) (gh : Bytes) (h : Scal)
+    (body : JVal) (rest : JFields) (gt : Bytes) (hgt : Blank gt)
+    (hv : JValidF (.consHdr g0 k g1 o gh h body rest) gt)
+    (hb : hasBom (jrenderF (.consHdr g0 k g1 o gh h body rest) ++ gt) = false) :
+    ∃ T, parse (jrenderF (.consHdr g0 k g1 o gh h body rest) ++ gt) = .ok T false ∧
+      T.map Tok.erase =
+        [(k.tok []).erase] ++ o.toks ++ ([.header ⟨0, h.bytes⟩] ++ ktapeV (kcontentV body) (0 + 1 + o.toks.length + 1)) ++
+          ktapeF (kcontentF rest) (0 + (1 + o.toks.length + (1 + kcntV (kcontentV body)))) := by
+  obtain ⟨T, h1, h2⟩ := faithful_tree _ gt hgt hv hb
+  exact ⟨T, h1, by rw [h2]; simp only [kcontentF, ktapeF, ktapeV, kcntV]⟩
+
+/-- C01_faithful, ghost `{}` at the start of a container: it leaves no trace — the document has
+the content (and so, up to positions, the tape) of the document without it. -/
+theorem C01_faithful_ghost_start_partial (g0 : Bytes) (k : Scal) (g1 : Bytes) (o : Op) (g b1 b2 : Bytes)
+    (v : JVal) (rest : JFields) (gt : Bytes) (hgt : Blank gt)
+    (hv : JValidF (.cons g0 k g1 o (.ghostIn g b1 b2 v) rest) gt)
+    (hb : hasBom (jrenderF (.cons g0 k g1 o (.ghostIn g b1 b2 v) rest) ++ gt) = false) :
+    ∃ T, parse (jrenderF (.cons g0 k g1 o (.ghostIn g b1 b2 v) rest) ++ gt) = .ok T false ∧
+      T.map Tok.erase = ktapeF (kcontentF (.cons g0 k g1 o v rest)) 0 :=
+  faithful_tree _ gt hgt hv hb
+
+/-- the hypotheses are satisfiable: `c=rgb{1 2} g={{} x}⏎` (a header, a ghost at the start). -/
+example : JValidF exampleHdr [10] ∧ Blank [10] ∧ hasBom (jrenderF exampleHdr ++ [10]) = false :=
+  exampleHdr_valid
+
+/-- C01_faithful, BOM in front of a structured document: same tape (positions included, since the
+model records them relative to the end of the input), BOM flag set. -/
+theorem C01_faithful_bom_partial (fs : JFields) (gt : Bytes) (hgt : Blank gt) (hv : JValidF fs gt)
+    (hb : hasBom (jrenderF fs ++ gt) = false) :
+    parse (0xef :: 0xbb :: 0xbf :: (jrenderF fs ++ gt)) = .ok (jtapeF fs 0 gt) true :=
+  parse_tree_bom fs gt hgt hv hb
 
 /-- the hypotheses are satisfiable: `a={1 {b=c} {}} d={{x}}⏎`. -/
 example : JValidF exampleTree [10] ∧ Blank [10] ∧ hasBom (jrenderF exampleTree ++ [10]) = false :=
